@@ -46,7 +46,8 @@ pub fn menu10(l: L) -> Vec<(String, usize)> {
         (next.to_string(), 5),
         (other.to_string(), 5),
         (low.to_uppercase(), 5),
-        (format!("{}{}", low, other), 3),
+        // a title with an expanding letter of the language (NUL padding inside the stored text) where there is one
+        (match l { L::De => "maß".to_string(), L::Fr => "cœur".to_string(), _ => format!("{}{}", low, other) }, 3),
         (String::new(), 5),
         (format!("{} {}", low, other), 5),
         (format!("{0}{0}", next), 9),
@@ -86,6 +87,11 @@ pub fn check_topk(l: L, recs: &[Rec], limit: usize, hits: &Hits) -> Result<(), (
         let Some(r) = recs.iter().find(|r| r.0 == *id) else {
             return Err(("record-not-in-store", format!("id {} is not among the current records", id)));
         };
+        // "no highlighting": the title comes back undecorated, i.e. as stored (composed, NUL-free)
+        let plain: String = strip_nul(&ref_compose(&frozen_inventory(l), &chars(&r.1))).into_iter().collect();
+        if *title != plain {
+            return Err(("title-not-returned-as-stored", format!("record {:?} returned as {:?}", r.1, title)));
+        }
         if seen.contains(id) {
             return Err(("record-listed-twice", format!("id {}", id)));
         }
